@@ -126,8 +126,8 @@ class C16:
     HANG_IS_VIOLATION = True
     ENUM_LEN = {"quick": 3, "thorough": 5}
     TIERS = {
-        "quick": {"runs": _enum_count(3) + 2000000, "budget_s": 150, "chunk": 8000, "run_timeout_s": 10},
-        "thorough": {"runs": _enum_count(5) + 12000000, "budget_s": 1500, "chunk": 20000, "run_timeout_s": 10},
+        "quick": {"runs": _enum_count(3) + 2000000, "budget_s": 150, "chunk": 8000, "run_timeout_s": 30},
+        "thorough": {"runs": _enum_count(5) + 12000000, "budget_s": 1500, "chunk": 20000, "run_timeout_s": 30},
     }
     RULE = ("cases: (a) every operation suffix of length <= L (quick 3, thorough 5) over a 16-symbol alphabet "
             "(push 0/1/2, pop, decrease node 0/1/2 by 0/1/2, remove node 0/1/2) after each of 3 prefixes (empty, "
